@@ -89,6 +89,27 @@ theorem tie_sweepCond (cot now : Nat) : sweepCond cot now = decide (cot < now) :
   · have : ¬ (cot : Int) < now := by omega
     simp [h, this]
 
+/-- new_call_out: the ordered insert stops at the first entry with `(*copp)->delta >= delay` -/
+theorem tie_insertBefore (a b : Int) : insertBefore a b = decide (a ≥ b) := rfl
+
+/-- remove/find_call_out_by_handle: `handle & (CALLOUT_CYCLE_SIZE - 1)` -/
+theorem tie_handleSlot (h : Nat) : handleSlot h = slotOf h := by
+  unfold handleSlot handleSlotExpr
+  rw [cAnd_mask, Int.toNat_natCast, Int.toNat_natCast]
+
+/-- the efun helpers return `(int) time_left (...)` -/
+theorem tie_efunResult (x : Int) : efunResult x = trunc32 x := rfl
+
+/-- call_out(): `--call_list[tm]->delta == 0` (argument = the value before the decrement) -/
+theorem tie_headDue (d : Int) : headDue d = (d - 1 == 0) := by
+  unfold headDue
+  by_cases h : d - 1 = 0 <;> simp [h]
+
+/-- call_out(): `while (call_list[tm] && call_list[tm]->delta == 0)` -/
+theorem tie_nextDue (d : Int) : nextDue d = (d == 0) := by
+  unfold nextDue
+  by_cases h : d = 0 <;> simp [h]
+
 /-- **time_left is exact** (clause 2a): for the entry at cumulative rotation `D` of slot `s`,
     `time_left(s, D) = dueOf s cot D - now` -/
 theorem timeLeft_eq (w : World) (s : Nat) (D : Int) (hs : s < N) :
